@@ -242,6 +242,8 @@ def c_translator_validation(cfg):
 def tasks(tier):
     out = [Task("angc_ylm/offset1", h_angc_ylm, {}), Task("angc_ylm/offset0", h_angc_ylm, dict(stride=2, offset=0)),
            Task("rad_orb/offset1", h_rad_orb, {}), Task("rad_orb/offset0", h_rad_orb, dict(stride=2, offset=0)),
+           # offset 0 inside a wider array (stride > nalpha): the layout LCAOInterpolator uses for the l=0 block when l=1 features exist
+           Task("angc_ylm/offset0_wide", h_angc_ylm, dict(stride=3, offset=0)), Task("rad_orb/offset0_wide", h_rad_orb, dict(stride=4, offset=0)),
            Task("atc_integrals/vj+vi", h_atc_integrals, dict(vk=False)), Task("atc_integrals/vk", h_atc_integrals, dict(vk=True)),
            Task("interp_transform/gq", h_interp_transform, dict(order="gq"), mods="numint"), Task("interp_transform/qg", h_interp_transform, dict(order="qg"), mods="numint"),
            Task("translator_validation", c_translator_validation, dict(seed=0), engine="custom")]
